@@ -3,7 +3,7 @@
 // Contracts for the deductive verifier in /verif (comment-only: adds no declarations).
 package certgen
 
-//@ use net asn1 errors time ssh crypto x509
+//@ use net asn1 errors time ssh crypto x509 certgen_ext fmt
 
 // ---- C10 / C11: the RFC 3779 address-block codec ---------------------------------------------------
 //@ func decodeIPV4AddressChoice
@@ -87,11 +87,31 @@ package certgen
 //@   atcall crypto/x509.CreateCertificate requires (rnd io.Reader, template *x509.Certificate, parent *x509.Certificate, pub any, priv any) :: template.Subject.CommonName == userName && pub == userPub && parent == caCert && !template.IsCA && template.BasicConstraintsValid  #C02.ipcert-subject-key @C02
 //@   atcall crypto/x509.CreateCertificate requires (rnd io.Reader, template *x509.Certificate, parent *x509.Certificate, pub any, priv any) :: timeNanos(template.NotBefore) == nowNanos() && timeNanos(template.NotAfter) == nowNanos() + int64(duration)  #C03.ipcert-window @C03
 
-// verdict of the netblock test, as seen by callers (its meaning is C11's iff clause)
-//@ ghost func ipInCertNetblocks(cert *x509.Certificate, remoteAddr string) bool
+// ---- C11: the verdict of the netblock test --------------------------------------------------------------------
+// "them" of the property: the blocks of the IPv4 families that encoding/asn1 parses from the certificate's first
+// address-delegation extension, each read by the decoder above (blockOf names the decoder's result: the decoder is
+// a function of its argument - assumed, listed); "lies inside" is net.IPNet.Contains (trusted).
+//@ ghost func blockOf(b asn1.BitString) net.IPNet
+//@ func decodeIPV4AddressChoice
+//@   assume ret1 == nil ==> same(ret0, blockOf(encodedBlock))
+//@   modifies nothing
+//@ pure func isDelegationExt(cert *x509.Certificate, k int) bool = 0 <= k && k < len(cert.Extensions) && oidEq(cert.Extensions[k].Id, oidIPAddressDelegation)
+//@ pure func firstDelegationExt(cert *x509.Certificate, k int) bool = isDelegationExt(cert, k) && (forall k2 int :: 0 <= k2 && k2 < k ==> !oidEq(cert.Extensions[k2].Id, oidIPAddressDelegation))
+//@ pure func familyAdmits(f IpAdressFamily, ip net.IP) bool = bytesEq(f.AddressFamily, ipV4FamilyEncoding) && (exists j int :: 0 <= j && j < len(f.Addresses) && netContains(blockOf(f.Addresses[j]), ip))
+//@ pure func listAdmits(l []IpAdressFamily, ip net.IP) bool = (exists i int :: 0 <= i && i < len(l) && familyAdmits(l[i], ip))
+//@ opaque func ipInCertNetblocks(cert *x509.Certificate, remoteAddr string) bool = (exists k int :: firstDelegationExt(cert, k) && listAdmits(parsedFamilies(cert.Extensions[k].Value), parsedIP(hostOfAddr(remoteAddr))))
 //@ func VerifyIPRestrictedX509CertIP
-//@   assume ret1 == nil ==> ret0 == ipInCertNetblocks(userCert, remoteAddr)
+//@   intmode math
+//@   reveal ipInCertNetblocks
+//@   ensures ret1 == nil && ret0 ==> ipInCertNetblocks(userCert, remoteAddr)       #C11.admitted-only-inside-a-certified-netblock @C11,C06
+//@   ensures ret1 == nil && !ret0 ==> !ipInCertNetblocks(userCert, remoteAddr)     #C11.refused-only-outside-every-certified-netblock @C11
+// (a lemma at the parse: the octets parsed are those of the first delegation extension; kept for the postconditions)
+//@   atcall encoding/asn1.Unmarshal establishes (b []byte, val any) :: (exists k int :: firstDelegationExt(userCert, k) && same(b, userCert.Extensions[k].Value))   #C11.parses-the-first-delegation-extension @C11
+//@   loop 1 (extension *pkix.Extension, rangeindex int) invariant extension == nil && (forall k2 int :: 0 <= k2 && k2 <= rangeindex ==> !oidEq(userCert.Extensions[k2].Id, oidIPAddressDelegation))   #C11.extension-scan @C11
+//@   loop 2 (ipAddressFamilyList []IpAdressFamily, remoteIP net.IP, rangeindex int) invariant (forall i int :: 0 <= i && i <= rangeindex ==> !familyAdmits(ipAddressFamilyList[i], remoteIP))   #C11.no-family-so-far @C11
+//@   loop 3 (addressList IpAdressFamily, remoteIP net.IP, rangeindex int) invariant (forall j int :: 0 <= j && j <= rangeindex ==> !netContains(blockOf(addressList.Addresses[j]), remoteIP))   #C11.no-block-so-far @C11
 // C10 / C11: whatever the address extension of an otherwise trusted certificate holds, reading it never panics
+//@ func VerifyIPRestrictedX509CertIP
 //@   requires userCert != nil
 //@   nopanic @C10,C11
 //@ func ExtractIPNetsFromIPRestrictedX509
